@@ -180,6 +180,16 @@ fn collect<'tcx>(tcx: TyCtxt<'tcx>) -> J {
         let kind = tcx.def_kind(did);
         let is_fn = matches!(kind, DefKind::Fn | DefKind::AssocFn | DefKind::Closure);
         if !is_fn {
+            // constants / statics: typed tree only (their values are in `consts`)
+            if matches!(kind, DefKind::Const { .. } | DefKind::AssocConst { .. } | DefKind::Static { .. }) {
+                let thir = thirdump::dump_body(&mut cx, owner);
+                bodies.push(obj! {
+                    "path": J::s(cx.path(did)),
+                    "span": cx.span(tcx.def_span(did)),
+                    "thir": thir,
+                    "mir": J::Null,
+                });
+            }
             continue;
         }
         let mut o: Vec<(&'static str, J)> = Vec::new();
